@@ -288,6 +288,9 @@ pub enum FrameSpec {
     Raw(Vec<u8>),
     /// replay, verbatim, the k-th downlink frame materialised earlier in this run (modulo count)
     Replay(u16),
+    /// reflect, verbatim, one of the device's own uplinks of this run back at it (0 = the most recent one, modulo
+    /// count): what a repeater, a multipath echo or an adversary recording and re-sending the uplink produces
+    Echo(u16),
 }
 
 impl FrameSpec {
@@ -297,6 +300,7 @@ impl FrameSpec {
             FrameSpec::JoinAccept(_) => "JoinAccept",
             FrameSpec::Raw(_) => "Raw",
             FrameSpec::Replay(_) => "Replay",
+            FrameSpec::Echo(_) => "Echo",
         }
     }
 }
